@@ -341,6 +341,40 @@ func scanProcessValues(p *packages.Package, fd *ast.FuncDecl, clocks clockSet, r
 		r, _ := filepath.Rel(repo, pos.Filename)
 		res = append(res, site{Pkg: rel, Func: funcName(fd), Kind: kind, Expr: expr, Where: r + ":" + itoa(pos.Line)})
 	}
+	// the process's time zone: `time.Local`, `t.Local()`, and `time.Unix*(…)` values (zone = Local) that are used for anything
+	// but zone-independent arithmetic — their String / Format depends on $TZ
+	zoneFree := map[string]bool{"UTC": true, "Unix": true, "UnixNano": true, "UnixMilli": true, "UnixMicro": true, "Before": true, "After": true,
+		"Equal": true, "Sub": true, "IsZero": true, "Compare": true, "Add": true}
+	var stack []ast.Node
+	ast.Inspect(fd.Body, func(n ast.Node) bool {
+		if n == nil {
+			stack = stack[:len(stack)-1]
+			return true
+		}
+		stack = append(stack, n)
+		switch x := n.(type) {
+		case *ast.SelectorExpr:
+			if v, ok := p.TypesInfo.Uses[x.Sel].(*types.Var); ok && v.Pkg() != nil && v.Pkg().Path() == "time" && v.Name() == "Local" {
+				add(x, "envRead", "time.Local (time zone of the process)")
+			}
+		case *ast.CallExpr:
+			switch calleeKey(p, x) {
+			case "time.Time.Local":
+				add(x, "envRead", "time.Time.Local (time zone of the process)")
+			case "time.Unix", "time.UnixMilli", "time.UnixMicro":
+				ok := false
+				if len(stack) >= 2 {
+					if se, isSel := stack[len(stack)-2].(*ast.SelectorExpr); isSel && se.X == n && zoneFree[se.Sel.Name] {
+						ok = true
+					}
+				}
+				if !ok {
+					add(x, "envRead", calleeKey(p, x)+" (a time value in the process's time zone)")
+				}
+			}
+		}
+		return true
+	})
 	ast.Inspect(fd.Body, func(n ast.Node) bool {
 		call, ok := n.(*ast.CallExpr)
 		if !ok {
